@@ -159,6 +159,8 @@ def run(ctx, replay=None):
     else:
         seen = set()
         emitted = []
+        # unbounded parameters: NeverOverdue, NoSecondFiringOfOneExpiry, PositivePeriod as an inductive invariant of Timer.tla
+        ctx.inductive("TimerApa", "misc")
         for label, cfg, horizon, acts in mc_cfgs(ctx):
             r = ctx.mc("TimerMC", cfg, "misc", required_actions=acts, label=label, timeout=3000, workers=WORKERS)
             for h in r.emitted():
